@@ -20,14 +20,14 @@ func c10(c *q.Ctx) {
 	if get != nil {
 		c.Before(get, q.ToCall("XMCache.getFromOuputsCache"), q.ToCall("XMCache.getAndSetFromInputsCache"), "a read observes this execution's latest write or delete first")
 		c.Gate(get, "XMCache.getAndSetFromInputsCache", q.ToSuccess(), q.Opt{Unless: []q.Cond{{Canon: "(nil == sandbox.(*XMCache).getFromOuputsCache(p0,p1,p2)#1)", Sense: true}}})
-		c.Guard(get, q.Cond{Canon: "sandbox.IsEmptyVersionedData(sandbox.(*XMCache).getAndSetFromInputsCache(p0,p1,p2)#0)", Sense: true}, q.ToSuccess(), q.Opt{})
-		c.Guard(get, q.Cond{Canon: "sandbox.IsDelFlag(sandbox.(*XMCache).getAndSetFromInputsCache(p0,p1,p2)#0.PureData.Value)", Sense: true}, q.ToSuccess(), q.Opt{})
+		c.Guard(get, q.Cond{Canon: "sandbox.IsEmptyVersionedData(sandbox.(*XMCache).getAndSetFromInputsCache(p0,p1,p2)#0)", Sense: true}, q.ToSuccess(), q.Opt{From: "XMCache.getAndSetFromInputsCache"})
+		c.Guard(get, q.Cond{Canon: "sandbox.IsDelFlag(sandbox.(*XMCache).getAndSetFromInputsCache(p0,p1,p2)#0.PureData.Value)", Sense: true}, q.ToSuccess(), q.Opt{From: "XMCache.getAndSetFromInputsCache"})
 		c.Guard(get, q.Cond{Canon: "(g:ErrNotFound == sandbox.(*XMCache).getFromOuputsCache(p0,p1,p2)#1)", Sense: false}, q.ToCall("XMCache.getAndSetFromInputsCache"), q.Opt{Unless: []q.Cond{{Canon: "(nil == sandbox.(*XMCache).getFromOuputsCache(p0,p1,p2)#1)", Sense: true}}})
 		c.ReturnIs(get, 0, []string{"nil", "sandbox.(*XMCache).getFromOuputsCache(p0,p1,p2)#0.PureData.Value", "sandbox.(*XMCache).getAndSetFromInputsCache(p0,p1,p2)#0.PureData.Value"}, "the value returned is the one found at the first layer that has the key")
 	}
 	go1 := c.Fn(sb + "(*XMCache).getFromOuputsCache")
 	if go1 != nil {
-		c.Guard(go1, q.Cond{Canon: "sandbox.IsDelFlag(sandbox.(*MemXModel).Get(p0.outputsCache,p1,p2)#0.PureData.Value)", Sense: true}, q.ToSuccess(), q.Opt{})
+		c.Guard(go1, q.Cond{Canon: "sandbox.IsDelFlag(sandbox.(*MemXModel).Get(p0.outputsCache,p1,p2)#0.PureData.Value)", Sense: true}, q.ToSuccess(), q.Opt{From: "MemXModel.Get"})
 		c.Gate(go1, "MemXModel.Get", q.ToSuccess(), q.Opt{})
 	}
 	gi := c.Fn(sb + "(*XMCache).getAndSetFromInputsCache")
